@@ -470,3 +470,156 @@ class Corr:
                 mm["t"] = st["t"]
             out.extend(r)
         return out
+
+
+# ------------------------------------------------------------------ construction obligations
+
+
+def table_req(tb: dict) -> dict:
+    Z = np.array(tb["Z"], dtype=float)
+    Y = np.array(tb["Y"], dtype=float)
+    x = Z.sum(axis=1) + Y.sum(axis=1) if "x" not in tb else np.array(tb["x"], dtype=float)
+    return {"m": tb["m"], "n": tb["n"], "k": tb["k"], "Z": qarr(Z), "Y": qarr(Y), "x": qarr(x)}
+
+
+def config_req(tb: dict, cfg: dict) -> dict:
+    from harness import scen
+    regs, secs, cats = scen.labels(tb)
+    inf_names = ("inf", "Inf", "Infinity", "infinity")
+    infs = cfg.get("inf_sect") or []
+    if cfg.get("inventory_dict") is None:
+        inv = [None if s in infs else q(cfg["main_inv_dur"]) for s in secs]
+    else:
+        dd = cfg["inventory_dict"]
+        inv = [None if (dd[s] in inf_names or s in infs) else q(dd[s]) for s in sorted(dd.keys())]
+    rt = cfg.get("restoration_tau", 60)
+    rest = [q(rt[s]) for s in sorted(rt.keys())] if isinstance(rt, dict) else [q(rt)] * tb["n"]
+    cap = cfg["capital"]
+    if cap["kind"] == "default":
+        capital = {"kind": "default"}
+    elif cap["kind"] == "dict":
+        capital = {"kind": "ratio", "values": [q(cap["values"][s]) for s in sorted(cap["values"].keys())]}
+    else:
+        capital = {"kind": "vector", "values": qarr(cap["values"])}
+    return {"isPsi": cfg["class"] == "psi", "alt": cfg["order_type"] == "alt", "aBase": q(cfg["alpha_base"]),
+            "aMax": q(cfg["alpha_max"]), "alphaTau": q(cfg["alpha_tau"]), "dt": int(cfg["dt"]), "yearFactor": int(cfg["year_factor"]),
+            "inventories": inv, "psi": q(float(cfg.get("psi", 1.0))), "restTau": rest, "capital": capital}
+
+
+def mkparams_obligation(dr: Driver, sc: dict, model, stats: Stats | None = None) -> list:
+    """model of __init__ vs the attributes of the constructed implementation object"""
+    out = []
+    tb, cfg = sc["table"], sc["model"]
+    ans = dr.ask({"op": "mkparams", **table_req(tb), "cfg": config_req(tb, cfg)})
+    if stats:
+        stats.obligations += 1
+    if ans["out"] != "ok":
+        out.append(Mismatch(phase="mkparams", var="outcome", what="model rejects a configuration the implementation accepted"))
+        return out
+    m, n, k = dims_of(model)
+    N = m * n
+    inv_i = np.asarray(model.inv_duration, dtype=float)
+    inv_m = np.array([np.inf if v is None else unq(v) for v in ans["invDur"]])
+    if not np.array_equal(np.isfinite(inv_i), np.isfinite(inv_m)):
+        out.append(Mismatch(phase="mkparams", var="invDur", what="different set of infinite inventories"))
+    else:
+        cmp_arr(out, "mkparams", "invDur", np.where(np.isfinite(inv_i), inv_i, 0), np.where(np.isfinite(inv_m), inv_m, 0))
+    cmp_arr(out, "mkparams", "x0", model.X_0, unqarr(ans["x0"]))
+    cmp_arr(out, "mkparams", "Z0", model.Z_0, unqarr(ans["Z0"]))
+    cmp_arr(out, "mkparams", "Y0", model.Y_0, unqarr(ans["Y0"]))
+    cmp_arr(out, "mkparams", "tech_mat", model.tech_mat, unqarr(ans["a"]), rtol=1e-8)
+    thr_i = np.asarray(model.threshold_not_input, dtype=bool).ravel()
+    thr_m = np.array(ans["thr"], dtype=bool)
+    if (thr_i != thr_m).any():
+        # a tie of the threshold test is accepted
+        ZC = np.asarray(model.Z_C, dtype=float).ravel()
+        lim = (np.tile(np.asarray(model.X_0, dtype=float), (n, 1)) * 1e-5).ravel()
+        d = thr_i != thr_m
+        if (np.abs(ZC - lim)[d] > 1e-9 * np.maximum(np.abs(ZC), np.abs(lim))[d]).any():
+            out.append(Mismatch(phase="mkparams", var="thr", what="technology mask differs", cell=int(np.argmax(d))))
+    cmp_arr(out, "mkparams", "psi", [float(getattr(model, "psi", 1.0))], [unq(ans["psi"])])
+    cmp_arr(out, "mkparams", "rest", np.asarray(getattr(model, "restoration_tau", np.ones(n)), dtype=float), unqarr(ans["rest"]))
+    cmp_arr(out, "mkparams", "aTau", [float(model.overprod_tau)], [unq(ans["aTau"])])
+    cmp_arr(out, "mkparams", "aBase", [float(model.overprod_base)], [unq(ans["aBase"])])
+    cmp_arr(out, "mkparams", "aMax", [float(model.overprod_max)], [unq(ans["aMax"])])
+    zd = np.asarray(model.Z_distrib, dtype=float)
+    if not np.isfinite(zd).all():
+        out.append(Mismatch(phase="mkparams", var="Zshare", what="non-finite market shares in the implementation"))
+    else:
+        cmp_arr(out, "mkparams", "Zshare", zd, unqarr(ans["Zshare"]))
+    cmp_arr(out, "mkparams", "K", np.asarray(model.productive_capital, dtype=float).ravel(), unqarr(ans["K"]), rtol=1e-8)
+    st_i = np.asarray(model.inputs_stock_0, dtype=float)
+    fin = np.isfinite(inv_i)
+    if (~np.isposinf(st_i[~fin, :])).any():
+        out.append(Mismatch(phase="mkparams", var="stock0", what="initial stock of an infinite input is not +inf"))
+    mask = np.repeat(fin[:, None], N, axis=1)
+    cmp_arr(out, "mkparams", "stock0", np.where(mask, st_i, 0.0), unqarr(ans["stock0"], (n, N)), rtol=1e-8, mask=mask)
+    cmp_arr(out, "mkparams", "dTot0", np.asarray(model.entire_demand_tot, dtype=float), unqarr(ans["dTot0"]))
+    if stats and not out:
+        stats.ok += 1
+    return out
+
+
+def event_req(sc: dict, ev: dict) -> dict:
+    """EventSpec of a scenario event (wide impact in canonical order)"""
+    from harness import scen
+    tb = sc["table"]
+    regs, secs, cats = scen.labels(tb)
+    m, n, k = tb["m"], tb["n"], tb["k"]
+    imp = np.zeros(m * n)
+    for key, v in ev["impact"].items():
+        r, s = key.split("|")
+        imp[regs.index(r) * n + secs.index(s)] = v
+    house = None
+    if ev.get("house"):
+        house = np.zeros(m * k)
+        for key, v in ev["house"].items():
+            r, c = key.split("|")
+            house[regs.index(r) * k + cats.index(c)] = v
+    kind = {"rebuild": "rebuild", "recovery": "recover", "arbitrary": "arbitrary"}[ev["type"]]
+    shares = [0.0] * n
+    isreb = [False] * n
+    if kind == "rebuild":
+        # the implementation keeps the shares as given (np.isclose(sum, 1)), it does not renormalise
+        for s, v in ev["reb_sectors"].items():
+            shares[secs.index(s)] = v
+            isreb[secs.index(s)] = True
+    return {"kind": kind, "occ": ev["occ"], "dur": ev["dur"], "tau": int(ev.get("rebuild_tau") or ev.get("recovery_tau") or 1),
+            "impact": qarr(imp), "house": None if house is None else qarr(house),
+            "emf": q(ev.get("emf", 1)), "shares": qarr(shares), "isReb": isreb, "factor": q(ev.get("factor", 1.0)),
+            "curve": ev.get("curve", "linear") if kind != "rebuild" else "linear"}
+
+
+def trackerinit_obligation(dr: Driver, sc: dict, sim, stats: Stats | None = None) -> list:
+    from harness import capture
+    out = []
+    tb = sc["table"]
+    mf = sc["model"]["monetary_factor"]
+    for i, (ev, trk) in enumerate(zip(sc["events"], sim._event_tracking)):
+        if stats:
+            stats.obligations += 1
+        ans = dr.ask({"op": "trackerinit", **table_req(tb), "mf": q(mf), "mfLog10": int(math.log10(mf)), "ev": event_req(sc, ev)})
+        snap = capture.snap_tracker(trk)
+        tag = f"tracker[{i}]."
+        before = len(out)
+        N = tb["m"] * tb["n"]
+        cmp_arr(out, "trackerinit", tag + "dmg0", snap["dmg0"] if snap["dmg0"] is not None else np.zeros(N), unqarr(ans["dmg0"]))
+        for f in ("hdmg0",):
+            iv, mv = snap[f], ans[f]
+            if (iv is None) != (mv is None):
+                out.append(Mismatch(phase="trackerinit", var=tag + f, what="presence differs"))
+            elif iv is not None:
+                cmp_arr(out, "trackerinit", tag + f, iv, unqarr(mv))
+        cmp_arr(out, "trackerinit", tag + "arb0", snap["arb0"] if snap["arb0"] is not None else np.zeros(N), unqarr(ans["arb0"]))
+        for f in ("remI", "remH"):
+            iv, mv = snap[f], ans["tracker"][f]
+            if (iv is None) != (mv is None):
+                out.append(Mismatch(phase="trackerinit", var=tag + f, what=f"implementation {'None' if iv is None else 'set'}, model {'None' if mv is None else 'set'}"))
+            elif iv is not None:
+                if not np.isfinite(iv).all():
+                    out.append(Mismatch(phase="trackerinit", var=tag + f, what="non-finite reconstruction demand in the implementation"))
+                else:
+                    cmp_arr(out, "trackerinit", tag + f, iv, unqarr(mv))
+        if stats and len(out) == before:
+            stats.ok += 1
+    return out
